@@ -392,7 +392,7 @@ def fuzz_one(data, ctx):
 
 def shards(tier, seed):
     q = tier == 'quick'
-    out = [{'part': 'machine', 'n': 30 if q else 900, 'steps': 30} for _ in range(10)]
+    out = [{'part': 'machine', 'n': 30 if q else 2500, 'steps': 30} for _ in range(10)]
     out += [{'part': 'header', 'n': 250 if q else 20000} for _ in range(6 if q else 5)]
     if not q:
         out.append({'part': 'atheris', 'runs': 400000})
